@@ -196,7 +196,13 @@ def apply_op(store, tok):
         elif k == "rn":
             G.remove_node(int(f[2]))
         elif k == "rns":
-            G.remove_nodes_from(p_nats(f[2]))
+            ns = p_nats(f[2])
+            if set(ns) >= set(range(N)) and not G.graph:
+                # removing every node of the universe = clear() when there are no graph attributes (clear()
+                # also empties G.graph); the model sees the same `rns` token
+                G.clear()
+            else:
+                G.remove_nodes_from(ns)
         elif k == "ae":
             G.add_edge(int(f[2]), int(f[3]), p_et(f[4]), **p_attr(f[5]))
         elif k == "aes":
@@ -411,7 +417,10 @@ def rand_history(rng, length, cls=None):
         elif r < 0.78:
             ops.append("rn:%d:%d" % (h, node()))
         elif r < 0.81:
-            ops.append("rns:%d:%s" % (h, ",".join(map(str, rng.sample(range(N), rng.choice((1, 2)))))))
+            if rng.random() < 0.25:
+                ops.append("rns:%d:%s" % (h, ",".join(map(str, range(N)))))     # everything: run as clear()
+            else:
+                ops.append("rns:%d:%s" % (h, ",".join(map(str, rng.sample(range(N), rng.choice((1, 2)))))))
         elif r < 0.84:
             ops.append("ce:%d:%s" % (h, et(h)))
         elif r < 0.87:
@@ -523,6 +532,47 @@ def run(ctx):
     steps = 0
     CH = 2000
     soft = time.time() + float(os.environ.get("VERIF_C02_SOFT_S") or (35 if tier == "quick" else 400))
+    # Constructor stream (implementation vs implementation; the add_edges_from side is the kind of history that
+    # the main stream compares with the Lean model): an ADMG built through its constructor from edge lists or
+    # networkx graphs - including a DiGraph handed in for a symmetric layer - must observe exactly like the
+    # ADMG built by adding the same edges.
+    import networkx as _nx
+    from pywhy_graphs import ADMG as _ADMG
+    ctor_bad = None
+    for t in range(60 if tier == "quick" else 600):
+        D = sorted({tuple(sorted(rng.sample(range(N), 2))) for _ in range(rng.choice((0, 1, 2, 3)))})
+        B = [tuple(rng.sample(range(N), 2)) for _ in range(rng.choice((0, 1, 2)))]
+        Uu = [tuple(rng.sample(range(N), 2)) for _ in range(rng.choice((0, 0, 1)))]
+        try:
+            G1 = _ADMG()
+            G1.add_edges_from(D, "directed")
+            G1.add_edges_from(B, "bidirected")
+            G1.add_edges_from(Uu, "undirected")
+            mode = t % 3
+            wrapB = (list, _nx.Graph, _nx.DiGraph)[mode]
+            wrapU = (_nx.DiGraph, list, _nx.Graph)[mode]
+            Dg = _nx.DiGraph(D) if mode else list(D)
+            Bg = wrapB(B)
+            G2 = _ADMG(incoming_directed_edges=Dg, incoming_bidirected_edges=Bg, incoming_undirected_edges=wrapU(Uu))
+            o1, o2 = observe(G1), observe(G2)
+            if o1 == o2:
+                # the graph must not share structure with the objects it was built from
+                for X in (Dg, Bg):
+                    if hasattr(X, "add_edge"):
+                        X.add_edge(0, N + 7)
+                        X.add_node(N + 8)
+                if observe(G2) != o2:
+                    o2 = "aliased-with-constructor-argument:" + observe(G2)
+        except Exception as e:
+            o1, o2 = "ok", "raised:" + type(e).__name__
+        ev.count("ctor-stream")
+        if o1 != o2 and ctor_bad is None:
+            ctor_bad = {"D": D, "B": B, "U": Uu, "bidirected_given_as": wrapB.__name__, "undirected_given_as": wrapU.__name__,
+                        "built_by_add_edges_from": o1, "built_by_constructor": o2}
+    if ctor_bad is not None:
+        out.violation({"ops": ["ctor-stream"], "ctor": ctor_bad},
+                      {"kind": "constructor", "detail": "ADMG(incoming_*_edges=...) does not observe like the ADMG built "
+                       "by add_edges_from with the same edges", **{k: str(v)[:300] for k, v in ctor_bad.items()}})
     ev.extra["histories_generated"] = len(cases)
     bounds = list(range(0, n_fixed, CH)) + list(range(n_fixed, len(cases), 2500)) + [len(cases)]
     for lo, hi in zip(bounds, bounds[1:]):
